@@ -206,14 +206,25 @@ func init() {
 		for i := range mans {
 			mans[i] = genManifest(r)
 		}
+		// exact replay (-case): the recorded manifest ({"manifest": ...}) takes an extra last slot and runs first, alone
+		replayIdx := -1
+		{
+			var rin struct {
+				Manifest *jManifest `json:"manifest"`
+			}
+			if loadReplayInput(cfg, "bundle", &rin) && rin.Manifest != nil {
+				replayIdx = n
+				mans = append(mans, rin.Manifest)
+				reqs = append(reqs, "")
+				impl = append(impl, "")
+				human = append(human, nil)
+			} else {
+				replayMissing(cfg, rep, "bundle")
+			}
+		}
 		var wg sync.WaitGroup
 		sem := make(chan struct{}, 16)
-		for i := 0; i < n; i++ {
-			wg.Add(1)
-			sem <- struct{}{}
-			go func(i int) {
-				defer wg.Done()
-				defer func() { <-sem }()
+		runMan := func(i int) {
 				m := mans[i]
 				root := filepath.Join(cfg.Work, fmt.Sprintf("m%06d", i), "bundle")
 				os.MkdirAll(root, 0755)
@@ -416,6 +427,19 @@ func init() {
 				reqs[i] = fmt.Sprintf("bundle %s %s %s %s", X(root), menc, oenc, qenc)
 				impl[i] = fmt.Sprintf("ok %s %s %s %s %s", enc(dl), enc(ml), enc(sl), enc(pl), strings.Join(answers, "|"))
 				human[i] = in
+		}
+		if replayIdx >= 0 {
+			rep.BeginReplay()
+			runMan(replayIdx)
+			rep.EndReplay(reqs[replayIdx])
+		}
+		for i := 0; i < n; i++ {
+			wg.Add(1)
+			sem <- struct{}{}
+			go func(i int) {
+				defer wg.Done()
+				defer func() { <-sem }()
+				runMan(i)
 			}(i)
 		}
 		wg.Wait()
